@@ -101,6 +101,7 @@ class Run:
         self.sched: list[Any] = []
         self.inside: dict[Any, str] = {}
         self.passed: dict[Any, list[Any]] = {}
+        self.reqno: dict[Any, int] = {}
         self.state: dict[Any, str] = {}
         self.kind: dict[Any, str | None] = {}
         self.futs: dict[Any, asyncio.Future[None]] = {}
@@ -169,9 +170,11 @@ class Run:
         self.log.append(('enter', name, kind))
         if kind == 'R':
             # readers that asked earlier and are still queued (naming only)
+            mine = self.reqno.get(name, 0)
             self.passed[name] = [n for n, s in self.state.items()
                                  if s == 'waiting' and n != name and
-                                 self.kind.get(n) == 'R']
+                                 self.kind.get(n) == 'R' and
+                                 self.reqno.get(n, 0) < mine]
         if kind == 'W' and writers:
             self._violate('writer-overlaps-writer',
                           'writer %r entered while writer %r is inside'
@@ -209,6 +212,7 @@ class Run:
                 idx += 1
                 self.kind[name] = kind
                 self.state[name] = 'waiting'
+                self.reqno[name] = len(self.log)
                 self.log.append(('req', name, kind))
                 try:
                     async with self._cm(kind):
